@@ -72,8 +72,10 @@ class Gen:
             return "(%s if %s else %s)" % (self.expr(d + 1), self.cond(d + 1), self.expr(d + 1))
         if r < 0.60:
             return "t(%d, %s)" % (self.tick(), self.expr(d + 1))
-        if r < 0.66:
+        if r < 0.64:
             return "len([%s])" % ", ".join(self.expr(d + 1) for _ in range(self.rng.randrange(0, 3)))
+        if r < 0.66:
+            return "len({%s, %s})" % (self.expr(d + 1), self.expr(d + 1))
         if r < 0.70:
             return "(%s, %s)[%d]" % (self.expr(d + 1), self.expr(d + 1), self.rng.randrange(2))
         if r < 0.74:
@@ -114,8 +116,10 @@ class Gen:
         r = self.rng.random()
         if r < 0.3:
             return "[%s]" % ", ".join(self.expr(1) for _ in range(self.rng.randrange(0, 3)))
-        if r < 0.45:
+        if r < 0.40:
             return "(%s, %s)" % (self.expr(1), self.expr(1))
+        if r < 0.45:
+            return "{%s, %s}" % (self.expr(1), self.expr(1))          # a set display
         if r < 0.6:
             return "{%d: %s, %d: %s}" % (1, self.expr(1), 2, self.expr(1))
         if r < 0.7:
@@ -190,6 +194,15 @@ class Gen:
                 self.fn += 1
                 inner = "g%d" % self.fn
                 body += ["def %s(z=1):" % inner, "    nonlocal y" if self.rng.random() < 0.5 else "    pass", "    y = z + x" , "    return y", "x = %s(%s)" % (inner, self.atom())]
+            r2 = self.rng.random()
+            if r2 < 0.08:
+                # leaves the function with a NameError that carries no `.name` (raised by the program itself) after visible work
+                body += ["t(%d, 1)" % self.tick(), 'raise NameError("nn%d")' % self.tick()]
+            elif r2 < 0.16:
+                # ... or with an UnboundLocalError (a NameError subclass, `.name` is None on 3.12): local read before assignment
+                # (read as an expression statement: inside a deferred thunk the read would be a closure-cell read, which raises a plain
+                #  NameError - the recorded finding C08-unbound-local-in-thunk)
+                body = ["if p == 99:", "    zz = 0"] + body + ["t(%d, 2)" % self.tick(), "zz"]
             body += ["return %s" % self.expr()] if self.rng.random() < 0.8 else []
             self.in_loop = saved_loop
             self.in_func -= 1
